@@ -2,10 +2,12 @@
 from __future__ import annotations
 
 import io
+import itertools
 import json
 import multiprocessing
 import os
 import signal
+import struct
 
 from . import core
 from .core import Check
@@ -40,6 +42,10 @@ def resave_oracle(b):
         except Exception as e:
             return ("rejected", type(e).__name__)
         try:
+            gb = guard_bits_o(d)
+        except Exception:
+            gb = -1
+        try:
             f = io.BytesIO()
             w = d.write(f)
             s1 = f.getvalue()
@@ -52,7 +58,7 @@ def resave_oracle(b):
         try:
             d2 = PSD.read(io.BytesIO(s1))
         except Exception as e:
-            return ("resaved-unreadable", "%s: %s" % (type(e).__name__, str(e)[:120]))
+            return ("resaved-unreadable", {"error": "%s: %s" % (type(e).__name__, str(e)[:120]), "guard_bits": gb})
         try:
             f = io.BytesIO()
             d2.write(f)
@@ -61,11 +67,11 @@ def resave_oracle(b):
             return ("second-save-fails", "%s: %s" % (type(e).__name__, str(e)[:120]))
         if s2 != s1:
             i = next((k for k in range(min(len(s1), len(s2))) if s1[k] != s2[k]), min(len(s1), len(s2)))
-            return ("resave-drifts", {"first_difference_at": i, "len1": len(s1), "len2": len(s2), "diffs": struct_diffs(d, d2)})
+            return ("resave-drifts", {"first_difference_at": i, "len1": len(s1), "len2": len(s2), "diffs": struct_diffs(d, d2), "guard_bits": gb})
         if not (d2 == d):
             diffs = struct_diffs(d, d2)
             if diffs:
-                return ("resaved-not-equal", diffs)
+                return ("resaved-not-equal", {"diffs": diffs, "guard_bits": gb})
         return ("accepted-ok", str(len(s1)))
     finally:
         signal.alarm(0)
@@ -220,6 +226,10 @@ def guard_bits_o(d):
             m = r.mask_data
             if m is not None and (_mask_body_len_o(m) >= 36) != (m.real_flags is not None):
                 bits |= 16
+            for t in (r.tagged_blocks.values() if r.tagged_blocks else []):
+                x = t.data
+                if type(x).__name__ == "SectionDividerSetting" and x.sub_type is not None and not (x.signature and x.blend_mode):
+                    bits |= 32      # twin of Resave.leaf_guard (payload classes active only in the oracle stream)
     return bits
 
 
@@ -293,27 +303,97 @@ def _paths(fl):
     return [tuple(x) for x in d] if isinstance(d, list) else None
 
 
-def _only(fl, pred):
-    ps = _paths(fl)
-    return bool(ps) and all(pred(p, a, b) for (p, a, b) in ps)
-
-
+# Classification is CAUSAL, not by symptom: a failure belongs to a known finding only if the structure first read (before
+# any write) falls into the finding's exactly characterised class - its guard bit, computed by guard_bits_o (twin of
+# Resave.guard_bits / leaf_guard) - AND every observed difference is one that class produces.  A new defect with the same
+# symptom on a structure outside the classes is therefore a VIOLATION.
 LI = "psd.layer_and_mask_information.layer_info."
-_F1 = lambda p, a, b: p in (LI + "layer_records", LI + "channel_image_data") and a.endswith("(len=0)") and b == "None"
-_F2 = lambda p, a, b: p == "psd.layer_and_mask_information.tagged_blocks" and a == "None" and b == "TaggedBlocks(len=0)"
-# a damaged file can show both defects at once: every difference must belong to one of the two classes
-core.KNOWN_CLASSIFIERS["F-C02-1"] = lambda fl: fl["kind"] == "resaved-not-equal" and _only(
-    fl, lambda p, a, b: _F1(p, a, b) or _F2(p, a, b)) and any(_F1(*x) for x in _paths(fl))
-core.KNOWN_CLASSIFIERS["F-C02-2"] = lambda fl: fl["kind"] == "resaved-not-equal" and _only(
-    fl, lambda p, a, b: _F1(p, a, b) or _F2(p, a, b)) and any(_F2(*x) for x in _paths(fl))
-core.KNOWN_CLASSIFIERS["F-C02-3"] = lambda fl: fl["kind"] in ("resave-drifts", "api-resave-drifts") and (
-    fl["kind"] == "api-resave-drifts" and fl.get("lowlevel_kind") == "resave-drifts" and fl.get("lowlevel_f3")
-    or (isinstance(fl["observed"], dict) and fl["observed"]["len1"] - fl["observed"]["len2"] == 4 and _only(
-        fl, lambda p, a, b: p == "psd.layer_and_mask_information.global_layer_mask_info" and b == "None")))
+_D = {
+    1: lambda p, a, b: p in (LI + "layer_records", LI + "channel_image_data") and a.endswith("(len=0)") and b == "None",
+    2: lambda p, a, b: p == "psd.layer_and_mask_information.tagged_blocks" and a == "None" and b == "TaggedBlocks(len=0)",
+    4: lambda p, a, b: p == "psd.layer_and_mask_information.global_layer_mask_info" and b == "None",
+    32: lambda p, a, b: p.endswith(".data.sub_type") and "SECTION_DIVIDER_SETTING" in p.rsplit("]", 1)[0].rsplit("[", 1)[-1] and b == "None",
+}
+_FID = {1: "F-C02-1", 2: "F-C02-2", 4: "F-C02-3", 8: "F-C02-4", 16: "F-C02-5", 32: "F-C02-6"}
+
+
+def explain(kind, obs):
+    """the id of the known finding that explains a low-level failure, or None"""
+    if not isinstance(obs, dict):
+        return None
+    gb = obs.get("guard_bits", 0)
+    if not isinstance(gb, int) or gb <= 0:
+        return None
+    if kind == "resaved-unreadable":
+        if str(obs.get("error", "")).startswith("OSError") and gb & 24:
+            return _FID[8] if gb & 8 else _FID[16]
+        return None
+    diffs = obs.get("diffs")
+    if kind not in ("resaved-not-equal", "resave-drifts") or not isinstance(diffs, list) or not diffs:
+        return None
+    used = []
+    for p, a, b in (tuple(x) for x in diffs):
+        k = next((k for k, pred in _D.items() if gb & k and pred(p, a, b)), None)
+        if k is None:
+            return None
+        used.append(k)
+    if kind == "resave-drifts":
+        return _FID[4] if (4 in used and obs.get("len1", 0) - obs.get("len2", 0) == 4) else None
+    if 4 in used:
+        return None
+    return _FID[min(used)]
+
+
+def _classifier(fid):
+    def f(fl):
+        if fl["kind"].startswith("api-"):
+            return fl.get("lowlevel_kind") == fl["kind"][4:] and explain(fl["kind"][4:], fl.get("lowlevel_observed")) == fid
+        return explain(fl["kind"], fl.get("observed")) == fid
+    return f
+
+
+for _fid in _FID.values():
+    core.KNOWN_CLASSIFIERS[_fid] = _classifier(_fid)
 
 W1 = bytes.fromhex("3842505300010000000000000001000000010000000100080001" "00000000" "00000000" "0000000a" "00000006" "0000" "00000000" "0000" "00")
 W2 = bytes.fromhex(open(os.path.join(core.VERIF, "known_findings", "C02-F2-witness.hex")).read())
 W3 = bytes.fromhex(open(os.path.join(core.VERIF, "known_findings", "C02-F3-witness.hex")).read())
+# minimal hand-made witnesses, the same byte strings as w1 .. w5 / ex_file of Properties/C02.v (compared on every run)
+_HDR = bytes.fromhex("3842505300010000000000000001000000010000000100080001")
+_I = lambda n: struct.pack(">I", n)
+
+
+def _rec(chans, extra):
+    return struct.pack(">4iH", 0, 0, 1, 1, len(chans)) + b"".join(struct.pack(">hI", i, n) for i, n in chans) + \
+        b"8BIMnorm" + bytes([255, 0, 8, 0]) + _I(len(extra)) + extra
+
+
+def coq_witnesses():
+    w = {"w1": W1}
+    body2 = struct.pack(">h", 1) + _rec([], _I(0) + _I(0) + _I(0))
+    w["w2"] = _HDR + _I(0) + _I(0) + _I(4 + len(body2)) + _I(100) + body2 + b"\0\0"
+    w["w3"] = _HDR + _I(0) + _I(0) + _I(19) + _I(0) + _I(0) + bytes(range(1, 12)) + b"\0\0"
+    w["w4"] = _HDR + _I(0) + _I(0) + _I(17) + _I(0) + b"8BIMabcd" + _I(1) + b"\x07" + b"\0\0\0"
+    mask = _I(35) + struct.pack(">4iBB", 0, 0, 1, 1, 0, 16) + bytes([0x0A]) + struct.pack(">dd", 1.0, 2.0)
+    body5 = struct.pack(">h", 1) + _rec([(0, 3)], mask + _I(0) + _I(0)) + b"\0\0" + b"\x05"
+    li5 = _I(len(body5)) + body5
+    w["w5"] = _HDR + _I(0) + _I(0) + _I(len(li5)) + li5 + b"\0\0" + b"\x01" * 20
+    extra = _I(0) + _I(0) + bytes([2, 97, 233, 0]) + b"8BIMzzzz" + _I(5) + bytes([1, 2, 3, 4, 5]) + b"\0\0\0"
+    li_body = struct.pack(">h", 1) + _rec([(-1, 5)], extra) + b"\0\0" + bytes([7] * 5)
+    lami = _I(len(li_body)) + li_body + _I(16) + struct.pack(">5HHB", 0, 65535, 0, 0, 0, 50, 128) + b"\0\0\0" + \
+        b"8BIMabcd" + _I(1) + bytes([42]) + b"\0\0\0" + b"\0" * 8
+    res = b"8BIM" + struct.pack(">H", 1001) + b"\0\0" + _I(3) + bytes([9, 8, 7, 0]) + bytes([1, 2, 3])
+    lsct = b"8BIMlsct" + _I(8) + bytes([0, 0, 0, 1, 0, 0, 0, 7])
+    body6 = struct.pack(">h", 1) + _rec([], _I(0) + _I(0) + _I(0) + lsct)
+    w["w6"] = _HDR + _I(0) + _I(0) + _I(4 + len(body6) + 2) + _I(len(body6) + 2) + body6 + b"\0\0" + b"\0\0" + b"\0" * 20
+    w["w_ovf"] = _HDR[:5] + b"\x02" + _HDR[6:] + _I(0) + _I(0) + struct.pack(">Q", 10) + b"\xff" * 8 + b"\0\0" + b"\0\0"
+    w["ex_file"] = _HDR + _I(0) + _I(len(res)) + res + _I(len(lami)) + lami + b"\0\1" + bytes([5, 5])
+    return w
+
+
+W4 = coq_witnesses()["w4"]
+W5 = coq_witnesses()["w5"]
+W6 = coq_witnesses()["w6"]
 
 
 def _still(b, kind):
@@ -324,6 +404,9 @@ def _still(b, kind):
 core.KNOWN_WITNESS["F-C02-1"] = lambda: _still(W1, "resaved-not-equal")
 core.KNOWN_WITNESS["F-C02-2"] = lambda: _still(W2, "resaved-not-equal")
 core.KNOWN_WITNESS["F-C02-3"] = lambda: _still(W3, "resave-drifts")
+core.KNOWN_WITNESS["F-C02-4"] = lambda: _still(W4, "resaved-unreadable")
+core.KNOWN_WITNESS["F-C02-5"] = lambda: _still(W5, "resaved-unreadable")
+core.KNOWN_WITNESS["F-C02-6"] = lambda: _still(W6, "resaved-not-equal")
 
 
 def _work(item):
@@ -331,24 +414,86 @@ def _work(item):
     return cid, resave_oracle(b), api_oracle(b)
 
 
+def tb_mutants(b):
+    """structure-aware mutants: every length field that follows a '8BIM'/'8B64' signature + 4-byte key is shortened by
+    1..16 / halved / zeroed. The tagged-block loop stops at the first misaligned signature, so most of these are ACCEPTED
+    with a truncated payload handed to the payload class: the lenient read paths of the payload classes"""
+    n = len(b)
+    for sig in (b"8BIM", b"8B64"):
+        i = b.find(sig)
+        while i >= 0:
+            if i + 12 <= n:
+                length = struct.unpack_from(">I", b, i + 8)[0]
+                if 0 < length and i + 12 + length <= n:
+                    for k in sorted({1, 2, 3, 4, 5, 6, 7, 8, 12, 16, length // 2, length - 1, length}):
+                        if 0 < k <= length:
+                            m = bytearray(b)
+                            m[i + 8:i + 12] = struct.pack(">I", length - k)
+                            yield ("tblen@%d-%d" % (i, k), bytes(m))
+            i = b.find(sig, i + 1)
+
+
+def tiny_seeds(ck):
+    """hand-made minimal files (the witnesses of Properties/C02.v and its example) and small generated documents of both
+    versions with unknown tagged-block keys / resource ids, masks, blending ranges, global layer mask info"""
+    from . import format_common as F
+
+    out = [("tiny:" + k, b) for k, b in sorted(coq_witnesses().items())]
+    want = 24 if ck.tier == "thorough" else 6
+    tries = 0
+    while len(out) < want + 6 and tries < 4000:
+        tries += 1
+        version = 1 + (len(out) % 2)
+        d = F.g_psd(ck.rng, "macroman", version=version, maxlayers=2)
+        if d[3][0] is None or d[3][0][0] == 0:
+            continue
+        try:
+            f = io.BytesIO()
+            F.obj_psd(d, "macroman").write(f)
+        except Exception:
+            continue
+        b = f.getvalue()
+        if len(b) <= 700:
+            out.append(("gen:v%d:%d" % (version, len(out)), b))
+    return out
+
+
 def run():
     from . import c06
+    from . import format_common as F
 
     ck = Check("C02")
-    ck.rule = ("seeds = API-built documents + small fixtures; mutants = every truncation offset of small files, structural boundaries, "
-               "bit flips in header/length/count fields, max-value/zero substitution in aligned 2/4/8-byte fields, random substitutions, splices "
-               "(generator shared with C06); only mutants the reader accepts are kept; non-trivial = accepted mutant that differs from its seed")
+    thorough = ck.tier == "thorough"
+    ck.rule = ("seeds = API-built documents + small fixtures + hand-made minimal files + small generated documents (both versions); mutants = every "
+               "truncation offset of small files, structural boundaries, bit flips in header/length/count fields, max-value/zero substitution in "
+               "aligned 2/4/8-byte fields, random substitutions, splices (generator shared with C06); oracle: every mutant the reader accepts "
+               "(non-trivial = accepted mutant that differs from its seed); correspondence: accepted AND rejected mutants of the small seeds "
+               "(all of them) and a sample per larger fixture, model reader/writer (vm_compute) vs implementation with payload registries emptied")
+    # ---- Coq: theorems
+    if ck.coq_build(["theories/Psd/ResaveProofs.v", "theories/Properties/C02.v"]):
+        ck.collect_theorems("C02.v")
+        wit = coq_witnesses()
+        body = "From Coq Require Import List.\nImport ListNotations.\n" + "".join(
+            "Lemma gen_%s_agree : C02.%s = %s. Proof. vm_compute. reflexivity. Qed.\n" % (k, k, core.zlist(list(b))) for k, b in sorted(wit.items()))
+        try:
+            ck.coq_eval("Gen_Witnesses", body, ["Base.Prelude", "Properties.C02"], timeout=300)
+            ck.obligations.append(("coq-witnesses-are-the-replayed-bytes", True, ""))
+        except Exception as e:
+            ck.obligations.append(("coq-witnesses-are-the-replayed-bytes", False, str(e)[-500:]))
+    # ---- inputs
     inputs, meta = [], {}
-    for name, b in c06.seeds(ck):
+    seedlist = list(c06.seeds(ck)) + tiny_seeds(ck)
+    for name, b in seedlist:
         inputs.append((len(inputs), b))
         meta[len(inputs) - 1] = (name, "seed")
         seen = set()
-        for desc, m in c06.gen_mutants(ck, name, b):
+        for desc, m in itertools.chain(c06.gen_mutants(ck, name, b), tb_mutants(b)):
             if m in seen or m == b:
                 continue
             seen.add(m)
             inputs.append((len(inputs), m))
             meta[len(inputs) - 1] = (name, desc)
+    # ---- oracle stream (implementation only, payload classes active)
     with multiprocessing.get_context("fork").Pool(14) as pool:
         results = pool.map(_work, inputs, chunksize=64)
     ck.evals += len(inputs)
@@ -360,14 +505,75 @@ def run():
                 if desc != "seed":
                     ck.nontriv((lvl, cid))
             elif st != "rejected":
-                low_f3 = False
-                if lvl == "api" and low[0] == "resave-drifts":
-                    low_f3 = core.KNOWN_CLASSIFIERS["F-C02-3"]({"kind": "resave-drifts", "observed": low[1]})
                 ck.fail(st, {"seed": name, "mutation": desc, "bytes": b}, detail, "save succeeds, re-read equal, second save identical",
-                        level=lvl, lowlevel_kind=low[0], lowlevel_f3=low_f3)
+                        level=lvl, lowlevel_kind=low[0], **({"lowlevel_observed": low[1]} if lvl == "api" else {}))
         ck.count("mut:" + desc.split("@")[0])
     ck.sample({"mutant": meta[len(inputs) // 2], "lowlevel": results[len(inputs) // 2][1], "api": results[len(inputs) // 2][2]})
     ck.obligations.append(("oracle-stream", True, ""))
+    # ---- correspondence: the model's read / save / re-read / save-again on the same bytes
+    by_seed = {}
+    for cid, b in inputs:
+        by_seed.setdefault(meta[cid][0], []).append(cid)
+    sel = []
+    for name, b in seedlist:
+        cids = by_seed[name]
+        n = len(b)
+        if n <= 1000:
+            take = cids
+        elif n <= 3000:
+            take = cids if thorough else [cids[0]] + ck.rng.sample(cids[1:], min(len(cids) - 1, 1200))
+        elif n <= 40000:
+            take = [cids[0]] + ck.rng.sample(cids[1:], min(len(cids) - 1, 250 if thorough else 30))
+        else:
+            take = []
+        sel.extend(take)
+        ck.count("corr-seed:" + ("tiny" if n <= 1000 else "small" if n <= 3000 else "fixture"), len(take))
+    sel_inputs = [inputs[c] for c in sel]
+    with multiprocessing.get_context("fork").Pool(14, initializer=_container_level) as pool:
+        cres = pool.map(_cwork, sel_inputs, chunksize=32)
+    cases = []
+    canon_bad = 0
+    for (cid, (out, info)), (_, b) in zip(cres, sel_inputs):
+        cases.append((b, out))
+        name, desc = meta[cid]
+        low = results[cid][1]
+        ck.count("container:" + ("rejected:%d" % out[0] if len(out) == 1 else "accepted"))
+        if (len(out) == 1) != (low[0] == "rejected"):
+            ck.count("payload-classes-change-acceptance")       # container accepts, a payload class rejects (or the reverse): oracle-only territory
+        if "canon_vs_eq" in info:
+            canon_bad += 1
+        if len(out) == 1:
+            if out[0] in (98, 99):
+                ck.fail("read-hangs" if out[0] == 98 else "unexpected-exception", {"seed": name, "mutation": desc, "bytes": b}, out, "a documented rejection", level="container")
+            continue
+        gb = out[2]
+        ok = len(out) == 11 and out[3] == 0 and out[6] == 0 and out[8] == 1 and out[9] == 0 and out[10] == 1
+        ck.count("guard-bits:%d:%s" % (gb, "ok" if ok else "fails"))
+        if gb == 0 and not ok:
+            # theorem resave_guarded replayed on the implementation: no guard fails, so the re-save must be lossless and stable
+            ck.fail("guarded-resave", {"seed": name, "mutation": desc, "bytes": b}, out,
+                    "[0,_,0, 0,n,_, 0,_,1, 0,1]: save succeeds, re-read equal, second save identical (no guard of F-C02-1..5 fails)", level="container")
+        elif gb == 0 and desc != "seed":
+            ck.nontriv(("container", cid))
+    ck.obligations.append(("canonical-equality-agrees-with-attrs-eq", canon_bad == 0, "%d cases" % canon_bad if canon_bad else ""))
+    bad = ck.correspond("resave_mutants", "resave_outcome", IMPORTS, cases, F.coq_bytes, chunk=60, timeout=1800)
+    for i in bad[:8]:
+        cid = sel[i]
+        ck.notes.append("model/implementation differ on mutant %s of %s (%d bytes): implementation %r" % (meta[cid][1], meta[cid][0], len(cases[i][0]), cases[i][1]))
+        json.dump({"bytes": cases[i][0].hex(), "impl": cases[i][1], "seed": meta[cid][0], "mutation": meta[cid][1]},
+                  open(os.path.join(ck.dir, "corr-mismatch-%d.json" % i), "w"))
+    ck.assumptions += [
+        "payloads of tagged blocks and image resources are opaque bytes in the model; the correspondence runs the implementation with its payload-class "
+        "registries (tagged_blocks.TYPES, image_resources.TYPES) emptied, the oracle stream runs it unchanged",
+        "charset: codec_ok (decode undone by encode) - true of mac_roman, checked below on all 256 byte values; names are compared as their encoded bytes",
+        "equality is Python equality of the attrs structures after write() ran (write refreshes channel lengths in place); NaN feather values compare "
+        "equal when their bit patterns are equal",
+        "theorems are conditional on the save succeeding; success of the save is proved for the header/colour-mode/image-data sections and observed "
+        "(oracle: save-fails) for the rest" ,
+    ]
+    # codec_ok on the Python codec
+    okc = all(bytes([x]).decode("macroman").encode("macroman") == bytes([x]) for x in range(256))
+    ck.obligations.append(("codec_ok:macroman", okc, ""))
     return ck.finish()
 
 
